@@ -419,6 +419,14 @@ class Agg:
     def __repr__(self): return 'Agg%r' % (self.items,)
 
 
+class Rec:
+    """a struct value with named scalar fields (immutable: updates make a new one)"""
+    def __init__(self, fields): self.f = dict(fields)
+    def with_(self, k, v):
+        r = Rec(self.f); r.f[k] = v; return r
+    def __repr__(self): return 'Rec%r' % (self.f,)
+
+
 class Opaque:
     def __init__(self, tag): self.tag = tag
     def __repr__(self): return 'Opaque(%s)' % self.tag
@@ -541,15 +549,28 @@ class Interp:
             else:
                 yield v, s
 
+    def lv_get(self, tgt, st):
+        if tgt.get('k') == 'ref': return st.env[tgt['d']]
+        if tgt.get('k') == 'member' and (tgt.get('b') or {}).get('k') == 'ref':
+            b = st.env[tgt['b']['d']]
+            if isinstance(b, Rec): return b.f[tgt['n']]
+            if isinstance(b, Agg) and tgt.get('n') in ('data', 'size'): return b.items[0 if tgt['n'] == 'data' else 1]
+        raise Unmodelled('unsupported assignment target at %s' % tgt.get('loc'))
+
+    def lv_set(self, tgt, st, v):
+        if tgt.get('k') == 'ref': st.env[tgt['d']] = v; return
+        b = st.env[tgt['b']['d']]
+        if isinstance(b, Rec): st.env[tgt['b']['d']] = b.with_(tgt['n'], v); return
+        items = list(b.items); items[0 if tgt['n'] == 'data' else 1] = v; st.env[tgt['b']['d']] = Agg(items)
+
     def e_un(self, e, st):
         op = e['op']
         if op in ('++', '--'):
             tgt = e['e']
-            if tgt.get('k') != 'ref': raise Unmodelled('++ on a non-variable')
-            old = st.env[tgt['d']]
+            old = self.lv_get(tgt, st)
             dlt = 1 if op == '++' else -1
             new = Ptr(old.base, old.off + dlt) if isinstance(old, Ptr) else fit(binop('+', old, Val.const(dlt)), tgt.get('t'))
-            st.env[tgt['d']] = new
+            self.lv_set(tgt, st, new)
             yield (old if e.get('post') else new), st; return
         if op == '&':
             tgt = e['e']
@@ -601,20 +622,12 @@ class Interp:
             return
         if op == '=' or (op.endswith('=') and op not in ('==', '!=', '<=', '>=')):
             tgt = e['l']
-            field = None
-            if tgt.get('k') == 'member' and (tgt.get('b') or {}).get('k') == 'ref' and tgt.get('n') in ('data', 'size'):
-                field = 0 if tgt['n'] == 'data' else 1; var = tgt['b']['d']
-            elif tgt.get('k') == 'ref': var = tgt['d']
-            else: raise Unmodelled('assignment to a non-variable at %s' % e.get('loc'))
             for r, s in self.ev(e['r'], st):
                 if isinstance(r, Abort): yield r, s; continue
-                old = s.env[var] if field is None else s.env[var].items[field]
                 if op == '=': new = r
-                else: new = self.arith(op[:-1], old, r, e.get('ct') or tgt.get('t'))
+                else: new = self.arith(op[:-1], self.lv_get(tgt, s), r, e.get('ct') or tgt.get('t'))
                 if isinstance(new, Val): new = fit(new, tgt.get('t'))
-                if field is None: s.env[var] = new
-                else:
-                    items = list(s.env[var].items); items[field] = new; s.env[var] = Agg(items)
+                self.lv_set(tgt, s, new)
                 yield new, s
             return
         for l, s in self.ev(e['l'], st):
@@ -661,6 +674,8 @@ class Interp:
             if isinstance(b, Abort): yield b, s; continue
             if isinstance(b, Agg) and e.get('n') in ('data', 'size'):
                 yield b.items[0 if e['n'] == 'data' else 1], s
+            elif isinstance(b, Rec) and e.get('n') in b.f:
+                yield b.f[e['n']], s
             else: raise Unmodelled('member %s of %r' % (e.get('n'), b))
 
     def e_index(self, e, st):
